@@ -757,10 +757,17 @@ impl<T: GseDecapMemory, C: CrcCalculator, MHEM: MandatoryHeaderExtensionManager>
         if pdu_buffer_len < calculed_pdu_len {
             return Err(self.reject_and_give_back(pdu, DecapError::ErrorSizePduBuffer, pkt_len));
         }
+        // the pdu length received so far has to fit the 16 bits of the total length
+        let pdu_len_received = match decap_context.pdu_len.checked_add(calculed_pdu_len as u16) {
+            Some(len) => len,
+            None => {
+                return Err(self.reject_and_give_back(pdu, DecapError::ErrorTotalLength, pkt_len));
+            }
+        };
         pdu_buffer[..calculed_pdu_len].copy_from_slice(&buffer[offset..offset + calculed_pdu_len]);
 
         // save state
-        decap_context.pdu_len += calculed_pdu_len as u16;
+        decap_context.pdu_len = pdu_len_received;
 
         let metadata = DecapMetadata {
             pdu_len: 0,
@@ -829,8 +836,9 @@ impl<T: GseDecapMemory, C: CrcCalculator, MHEM: MandatoryHeaderExtensionManager>
             )
         };
 
-        let total_len_received = (pdu_len + PROTOCOL_LEN + first_label_len) as u16;
-        if decap_context.total_len != total_len_received {
+        // (compared without truncation to 16 bits: more than 65535 bytes can have been received)
+        let total_len_received = pdu_len + PROTOCOL_LEN + first_label_len;
+        if decap_context.total_len as usize != total_len_received {
             return Err(self.reject_and_give_back(pdu, DecapError::ErrorTotalLength, pkt_len));
         }
 
